@@ -337,8 +337,13 @@ func init() {
 //	decMode 1: one held decoder, Reset(data)                                                (Bytes())
 //	decMode 2: one held decoder, ResetWithTimeRange(data, start, end)                       (BytesWithoutTime())
 //	consume  0/1/2: blocks before the last one are not read / read up to the middle / read completely
-func history(c *ctx, ids []int, encMode, decMode, consume int) {
+//	abandon: blocks before the last one are fed to the encoder and then given up (no Bytes()): the encoder goes back
+//	to the pool / is reset with a partly written block inside
+func history(c *ctx, ids []int, encMode, decMode, consume int, abandon bool) {
 	scen := fmt.Sprintf("history enc=%d dec=%d consume=%d", encMode, decMode, consume)
+	if abandon {
+		scen += " abandon"
+	}
 	var held *encoding.TSDEncoder
 	var heldDec *encoding.TSDDecoder
 	var lastEnc *encoding.TSDEncoder
@@ -365,6 +370,12 @@ func history(c *ctx, ids []int, encMode, decMode, consume int) {
 			e = held
 		}
 		m := feed(e, b, apiAppend)
+		if abandon && step < len(ids)-1 {
+			if encMode == 0 {
+				encoding.ReleaseTSDEncoder(e)
+			}
+			continue
+		}
 		var data []byte
 		var err error
 		if decMode == 2 {
@@ -604,7 +615,7 @@ func registerTSD() {
 		enum: func(th bool, emit func(p ...int64) bool) {
 			for a := 0; a < histBlocks; a++ {
 				for b := 0; b < histBlocks; b++ {
-					for mode := int64(0); mode < 18; mode++ {
+					for mode := int64(0); mode < 22; mode++ {
 						if !emit(mode, int64(a), int64(b)) {
 							return
 						}
@@ -617,7 +628,7 @@ func registerTSD() {
 			for _, a := range hist3 {
 				for _, b := range hist3 {
 					for _, d := range hist3 {
-						for mode := int64(0); mode < 18; mode++ {
+						for mode := int64(0); mode < 22; mode++ {
 							if !emit(mode, int64(a), int64(b), int64(d)) {
 								return
 							}
@@ -637,7 +648,11 @@ func registerTSD() {
 				c.text += " {" + histBlock(id).String() + "}"
 			}
 			c.nontrivial = true
-			history(c, ids, mode%2, (mode/2)%3, mode/6)
+			if mode >= 18 { // 18..21: abandoned blocks before the last one, decoder held, both outputs
+				history(c, ids, mode%2, 1+(mode-18)/2, 0, true)
+			} else {
+				history(c, ids, mode%2, (mode/2)%3, mode/6, false)
+			}
 		}})
 
 	// F5: multi-field stream (TSDStreamWriter / TSDStreamReader; the reader reuses one pooled decoder)
